@@ -141,7 +141,7 @@ def run_c19(ctx):
     res = l1_both(ctx, miri_shards=8)
     cp = l2.corpus(ctx)
     for h in range(1 if not ctx.thorough() else 10):
-        l2.watch_history(ctx, res, cp, "C19", 100 + h)
+        l2.watch_history(ctx, res, cp, "C19", 100 + h, length=7)
     l2.watch_history(ctx, res, cp, "C19", 150, symlinked=True)
     # the option given to `watch` holds for every re-check, as it does for a fresh check
     l2.watch_history(ctx, res, cp, "C19", 151, stack=True)
